@@ -150,6 +150,7 @@ def eval (Γ : CustomEnv) (chk : Bool) (ρ : Env) : Expr → R
   | .cast a ty =>
       match eval Γ chk ρ a with
       | .ok (.int t x) => .ok (.int ty (castBits t ty x))
+      | .ok (.bool b) => .ok (.int ty (if b then 1 else 0))      -- `true as T == 1`
       | .ok _ => .error (.stuck "cast operand")
       | .error f => .error f
   | .ite c a b =>
